@@ -14,7 +14,7 @@ theorem stmtListStop_spec : T src Tr stmtListStop (fun _ _ => True) := by
 theorem parseStmtListBody_go_spec : ∀ fuel acc, T src Tr (parseStmtListBody.go r fuel acc) (fun _ _ => True) := by
   intro fuel
   induction fuel with
-  | zero => intro acc; unfold parseStmtListBody.go; exact T.throw _ rfl
+  | zero => intro acc; unfold parseStmtListBody.go; exact T.throw _ (fun _ _ => trivial)
   | succ n ih => intro acc; unfold parseStmtListBody.go; hloop ih
 
 theorem parseStmtListBody_spec : T src Tr (parseStmtListBody r) (fun _ _ => True) := by
@@ -60,7 +60,7 @@ theorem parseDeclStmt_spec (p : Nat) (kw : Keyword) (hk : kw = .Var ∨ kw = .Ty
 theorem parseBlockStmtBody_go_spec : ∀ fuel acc, T src Tr (parseBlockStmtBody.go r fuel acc) (fun _ _ => True) := by
   intro fuel
   induction fuel with
-  | zero => intro acc; unfold parseBlockStmtBody.go; exact T.throw _ rfl
+  | zero => intro acc; unfold parseBlockStmtBody.go; exact T.throw _ (fun _ _ => trivial)
   | succ n ih => intro acc; unfold parseBlockStmtBody.go; hloop ih
 
 theorem parseBlockStmtBody_spec : T src Tr (parseBlockStmtBody r) (fun _ _ => True) := by
@@ -100,7 +100,7 @@ theorem parseCaseBlockBody_go_spec (ta : Bool) : ∀ fuel acc,
     T src Tr (parseCaseBlockBody.go r ta fuel acc) (fun _ _ => True) := by
   intro fuel
   induction fuel with
-  | zero => intro acc; unfold parseCaseBlockBody.go; exact T.throw _ rfl
+  | zero => intro acc; unfold parseCaseBlockBody.go; exact T.throw _ (fun _ _ => trivial)
   | succ n ih => intro acc; unfold parseCaseBlockBody.go; hloop ih
 
 theorem parseCaseBlockBody_spec (ta : Bool) : T src Tr (parseCaseBlockBody r ta) (fun _ _ => True) := by
@@ -115,7 +115,7 @@ theorem parseCommStmtBody_spec : T src Tr (parseCommStmtBody r) (fun _ _ => True
 theorem parseCommBlockBody_go_spec : ∀ fuel acc, T src Tr (parseCommBlockBody.go r fuel acc) (fun _ _ => True) := by
   intro fuel
   induction fuel with
-  | zero => intro acc; unfold parseCommBlockBody.go; exact T.throw _ rfl
+  | zero => intro acc; unfold parseCommBlockBody.go; exact T.throw _ (fun _ _ => trivial)
   | succ n ih => intro acc; unfold parseCommBlockBody.go; hloop ih
 
 theorem parseCommBlockBody_spec : T src Tr (parseCommBlockBody r) (fun _ _ => True) := by
